@@ -1551,14 +1551,17 @@ fn gen_move(rng: &mut Rng, npeers: usize, focus: &str) -> Move {
         "c01" | "c12" => &[10, 1, 14, 6, 14, 24, 8, 8, 6, 6, 4, 6],
         "c02" => &[10, 1, 10, 6, 8, 12, 10, 10, 4, 8, 26, 5],
         "c03" => &[10, 1, 12, 4, 10, 16, 6, 6, 12, 20, 4, 6],
-        "c13" => &[16, 2, 10, 6, 8, 14, 6, 10, 14, 6, 4, 10],
+        "c13" | "c13ed" | "c04ed" => &[16, 2, 10, 6, 8, 14, 6, 10, 14, 6, 4, 10],
         _ => &[18, 1, 10, 8, 8, 12, 8, 14, 8, 5, 3, 12],
     };
     let p_secp = rng.below(npeers as u64) as usize;
     // the last peer (index npeers) has an Ed25519 identity; requests are never addressed to it
     let p = if rng.chance(1, 6) { npeers } else { p_secp };
+    // focus names ending in "ed" also address requests to the Ed25519 node (monitor-only runs: the
+    // model covers secp256k1 contacts only, for which building the handshake cannot fail)
+    let p_req = if focus.ends_with("ed") && rng.chance(1, 3) { npeers } else { p_secp };
     match rng.weighted(w) {
-        0 => Move::AppRequest { peer: p_secp, with_enr: rng.chance(2, 3), kind: rng.below(3) as u8 },
+        0 => Move::AppRequest { peer: p_req, with_enr: rng.chance(2, 3), kind: rng.below(3) as u8 },
         1 => Move::AppSelfRequest,
         2 => Move::AppAnswerWru { idx: rng.below(8) as usize, known: rng.below(4) as u8 },
         3 => Move::AppRespond { idx: rng.below(8) as usize, multi: rng.below(3) as u8 },
